@@ -1,6 +1,7 @@
 package rig
 
 import (
+	"time"
 	"context"
 	"errors"
 	"fmt"
@@ -127,6 +128,8 @@ type ClusterOpts struct {
 	Permissions map[string][]*checker.Permissions
 	// ExtraPeers are configured peers (on every node) that are not instantiated.
 	ExtraPeers map[uint64]string
+	// GenTimeout (optional) is the generation timeout of every node (default: one hour).
+	GenTimeout time.Duration
 }
 
 // NewCluster builds the instances.
@@ -148,7 +151,7 @@ func NewCluster(o ClusterOpts) (*Cluster, error) {
 		n := &Node{ID: id, Name: nodeName(id), cluster: c}
 		r, err := NewSignerRig(SignerOpts{
 			Wallets: []string{"Wallet 1"}, DistWallets: []string{DistWallet}, Permissions: perms, Full: true,
-			ProcessID: id, PeersMap: peersMap, Sender: &clusterSender{c: c, from: n},
+			ProcessID: id, PeersMap: peersMap, Sender: &clusterSender{c: c, from: n}, GenTimeout: o.GenTimeout,
 			PeersWrap: func(p peers.Service) peers.Service { return &orderedPeers{Service: p, c: c, node: id} },
 		})
 		if err != nil {
